@@ -50,11 +50,23 @@ def conv_obs(ctx, tdir):
     return obs
 
 
+def block_obs(ctx):
+    obs = []
+    for nnq in (2, 4, 8) if ctx.quick else (2, 4, 8, 16):
+        for blk in range(nnq // 2):
+            nrows = (blk + nnq) % 4
+            obs.append(core.Ob("block/extract-save/nn=%d/blk=%d/rows=%d" % (nnq, blk, nrows), "q120blk.c", "h_q120blk", {"NNQ": nnq, "BLK": blk, "NROWS": nrows}, LIBS, unwind=4 * nnq * 4 + 12,
+                               family="q120 block extract / save", desc="q120x2_extract_1blk_from_q120{b,c}_ref, ..._from_contiguous_q120b_ref, q120x2b_save_1blk_to_q120b_ref on exactly-sized "
+                                                                         "symbolic buffers: exact copies of words 8*blk..8*blk+7, only the destination block written, extract after save is the identity"))
+    return obs
+
+
 def obligations(ctx):
     tdir = core.tables_dir(ctx, (), ())
     obs = product_obs(ctx, tdir, [0, 1, 2, 3] if ctx.quick else [0, 1, 2, 3, 4, 8])
     obs += accel_obs(ctx, tdir)
     obs += conv_obs(ctx, tdir)
+    obs += block_obs(ctx)
     return obs
 
 
